@@ -393,6 +393,8 @@ impl Property for C17 {
                 ensure_p!(ops.is_operator(&pool[i]) == member[i], "after step {} {:?}: is_operator(pool[{}]) differs from the set model", step, op, i);
             }
             ensure_p!(!ops.is_operator(&stranger), "stranger became an operator");
+            // the contracts calls are forwarded to never were appointed either
+            ensure_p!(!ops.is_operator(&target_id) && !ops.is_operator(&gas_id) && !ops.is_operator(&ops_id), "after step {} {:?}: a contract nobody appointed (a target of forwarded calls, or the operators contract itself) is reported as operator", step, op);
         }
         if nontrivial {
             cx.nontrivial();
